@@ -87,6 +87,10 @@ func kindMatches(pu propUnit, ob *Obligation) bool {
 		if strings.HasPrefix(ob.Name, k) {
 			return true
 		}
+		// "#label": every obligation carrying that label (all loops' init/preservation, ensures, asserts)
+		if strings.HasPrefix(k, "#") && (strings.HasSuffix(ob.Name, k) || strings.Contains(ob.Name, k+"#") || strings.Contains(ob.Name, ":"+k[1:]+"#")) {
+			return true
+		}
 	}
 	return ob.Kind == "cover"
 }
